@@ -25,6 +25,7 @@ Section Lang.
 
   Inductive pv :=
   | PBool (b : bool) | PStr (s : string) | PInt (z : Z) | PNone
+  | PSub (content shown : string)  (* an instance of a str subclass: behaves like [content], str() gives [shown] *)
   | PObj (o : O)
   | PTy (p : O -> bool)           (* a class, as its isinstance predicate on objects *)
   | PStrTy                        (* the class str *)
@@ -85,7 +86,7 @@ Section Lang.
     match v with
     | PBool b => b
     | PNone => false
-    | PStr s => negb (String.eqb s "")
+    | PStr s | PSub s _ => negb (String.eqb s "")
     | PInt z => negb (Z.eqb z 0)
     | PSet l => match l with [] => false | _ => true end
     | PTuple l => match l with [] => false | _ => true end
@@ -104,7 +105,7 @@ Section Lang.
   Definition isinst1 (v t : pv) : bool :=
     match t with
     | PTy p => match v with PObj o => p o | _ => false end
-    | PStrTy => match v with PStr _ => true | _ => false end
+    | PStrTy => match v with PStr _ | PSub _ _ => true | _ => false end
     | _ => false
     end.
   Definition isinst (v t : pv) : bool :=
@@ -140,19 +141,19 @@ Section Lang.
     | EEq a b => bind (eval a en) (fun va => bind (eval b en) (fun vb => ret (PBool (pv_eqb va vb))))
     | EIn a b => bind (eval a en) (fun va => bind (eval b en) (fun vb =>
                    match va, vb with
-                   | PStr s, PSet l => ret (PBool (smem s l))
+                   | PStr s, PSet l | PSub s _, PSet l => ret (PBool (smem s l))
                    | _, _ => ([], Exc "TypeError")
                    end))
     | EIsNotNone a => bind (eval a en) (fun v => ret (PBool (match v with PNone => false | _ => true end)))
     | EStartswith a p => bind (eval a en) (fun v =>
-                   match v with PStr s => ret (PBool (prefix p s)) | _ => ([], Exc "AttributeError") end)
+                   match v with PStr s | PSub s _ => ret (PBool (prefix p s)) | _ => ([], Exc "AttributeError") end)
     | EIsinstance a ty => bind (eval a en) (fun v => bind (eval ty en) (fun t => ret (PBool (isinst v t))))
     | EHasattrTypes n => ret (PBool (types_has n))
     | ESubscript o k => bind (eval o en) (fun vo => bind (eval k en) (fun vk =>
                    match vo with PObj ob => ([], prim_getitem ob vk) | _ => ([], Exc "TypeError") end))
     | EGetattr o a => bind (eval o en) (fun vo => bind (eval a en) (fun va =>
                    match vo, va with
-                   | PObj ob, PStr s => ([], prim_getattr ob s)
+                   | PObj ob, PStr s | PObj ob, PSub s _ => ([], prim_getattr ob s)
                    | _, _ => ([], Exc "TypeError")
                    end))
     | EGetattrDefault o a d => bind (eval o en) (fun vo =>
@@ -163,7 +164,7 @@ Section Lang.
                                 end
                    | _ => eval d en
                    end)
-    | EStrOf a => eval a en
+    | EStrOf a => bind (eval a en) (fun v => match v with PSub _ shown => ret (PStr shown) | _ => ret v end)
     | EHasattr o a => bind (eval o en) (fun vo => bind (eval a en) (fun va =>
                    match vo, va with
                    | PObj ob, PStr s => match prim_getattr ob s with
@@ -274,7 +275,7 @@ Section Lang.
     end.
 End Lang.
 
-Arguments PBool {O}. Arguments PStr {O}. Arguments PInt {O}. Arguments PNone {O}. Arguments PObj {O}.
+Arguments PBool {O}. Arguments PStr {O}. Arguments PSub {O}. Arguments PInt {O}. Arguments PNone {O}. Arguments PObj {O}.
 Arguments PTy {O}. Arguments PStrTy {O}. Arguments PSet {O}. Arguments PTuple {O}.
 Arguments Norm {A}. Arguments Exc {A}.
 Arguments Fall {O}. Arguments Ret {O}. Arguments Raise {O}.
